@@ -643,3 +643,22 @@ pub fn replay(v: &Value, path: &str) -> i32 {
         }
     }
 }
+
+/// libFuzzer entry: bytes -> (text, span or position).
+pub fn fuzz_one(data: &[u8]) {
+    if data.len() < 3 {
+        return;
+    }
+    let s = String::from_utf8_lossy(&data[3..]).into_owned();
+    let b = boundaries(&s);
+    let x = b[(data[0] as usize * b.len()) >> 8];
+    let y = b[(data[1] as usize * b.len()) >> 8];
+    let w = if data[2] & 1 == 1 { What::Pos(x) } else { What::Span(x.min(y), x.max(y)) };
+    let findings = load_findings();
+    let is_open = |id: &str| findings.iter().any(|f| f.id == id && f.open());
+    let mut st = State { open: [is_open("K4a"), is_open("K4b"), is_open("K4c")] };
+    let mut ev = Evidence::new("C14", Tier::Thorough, 0, "fuzz");
+    if let Some(v) = run_case(&s, &w, &mut ev, &mut st) {
+        panic!("VIOLATION-DOC {}", v);
+    }
+}
